@@ -129,32 +129,33 @@ func ParsePostgreSQLInterval(s string) (result time.Duration, err error) {
 	if err = adjustDuration(&result, matches[pgIntervalRegexp.SubexpIndex("days")], day); err != nil {
 		return
 	}
-	if err = adjustDuration(&result, matches[pgIntervalRegexp.SubexpIndex("hours")], time.Hour); err != nil {
+	// the time part carries ONE sign that applies to hours, minutes, seconds and
+	// the fraction alike: PostgreSQL prints minus five minutes as "-00:05:00"
+	var timePart time.Duration
+	if err = adjustDuration(&timePart, matches[pgIntervalRegexp.SubexpIndex("hours")], time.Hour); err != nil {
 		return
 	}
-	if err = adjustDuration(&result, matches[pgIntervalRegexp.SubexpIndex("minutes")], time.Minute); err != nil {
+	if err = adjustDuration(&timePart, matches[pgIntervalRegexp.SubexpIndex("minutes")], time.Minute); err != nil {
 		return
 	}
-	if err = adjustDuration(&result, matches[pgIntervalRegexp.SubexpIndex("seconds")], time.Second); err != nil {
+	if err = adjustDuration(&timePart, matches[pgIntervalRegexp.SubexpIndex("seconds")], time.Second); err != nil {
 		return
 	}
-	// sub-seconds require more logic, as the scale depends on the length
 	subsecs := matches[pgIntervalRegexp.SubexpIndex("subseconds")]
 	if len(subsecs) != 0 {
-		// PG cannot store more than microsecond resolution, but we can at least
-		// tolerate up to what Go can represent on input
 		if len(subsecs) > 9 {
 			err = errors.New("cannot parse beyond nanosecond resolution")
 			return
 		}
-		// len(subsecs) is in the range [1..9], so we know that
-		// int64(math.Pow10(...)) will be exactly correct, and evenly divide
-		// time.Second
 		subsecscale := time.Second / time.Duration(math.Pow10(len(subsecs)))
-		if err = adjustDuration(&result, subsecs, subsecscale); err != nil {
+		if err = adjustDuration(&timePart, subsecs, subsecscale); err != nil {
 			return
 		}
 	}
+	if matches[pgIntervalRegexp.SubexpIndex("timesign")] == "-" {
+		timePart = -timePart
+	}
+	result += timePart
 
 	return
 }
@@ -175,7 +176,7 @@ var pgIntervalRegexp = regexp.MustCompile(
 	`^((?P<years>[+-]?\d+) year[s]? )?` +
 		`((?P<months>[+-]?\d+) mon[s]? )?` +
 		`((?P<days>[+-]?\d+) day[s]? )?` +
-		`(?P<hours>[+-]?\d+):(?P<minutes>[+-]?\d+):(?P<seconds>[+-]?\d+)(\.(?P<subseconds>\d+))?$`,
+		`(?P<timesign>[+-])?(?P<hours>\d+):(?P<minutes>\d+):(?P<seconds>\d+)(\.(?P<subseconds>\d+))?$`,
 )
 
 // FIXME: PG understands that years, months, and days are relative to some
